@@ -17,6 +17,10 @@ VarNames == {"x", "y"}
 LblNames == {"l"}
 
 TTryE(f) == TTry(f, TC0("empty"))
+\* bombs of C03: divergence when the stream is built, divergence when it is pulled, an error on null
+DivC == TBin("//", TC1("repeat", TC0("empty")), TId)
+DivN == TDefs(<< TDef("d", <<>>, TC0("d")) >>, TC0("d"))
+NullErr == TIf(TId, TId, TC0("error"))
 \* the recursive step of the family "rec": . - 1 | f
 RecCall == TPipe(TBin("-", TId, TNum(1)), TC0("f"))
 
@@ -33,7 +37,8 @@ Leaves(fam, sc) ==
           [] fam = "paths" -> {TC0("empty"), TC0("error"), TRec, TIter, TIterO, TAt(TNum(0)), TAt(TNeg(TNum(1))),
                                TKey("a"), TPath(TId, << PFrom(TNum(1)) >>), TPath(TId, << PIdxO(TNum(0)) >>),
                                TPath(TId, << PUpto(TNum(1)) >>)}
-          [] fam = "streams" -> {TNum(1), TC0("empty"), TC0("error"), TC0("null")}
+          [] fam = "streams" -> {TNum(1), TC0("empty"), TC0("error"), TC0("null"), DivC, DivN, NullErr}
+          [] fam = "lazyp" -> {TAt(TNum(0)), TPath(TId, << PIdxO(TNum(1)) >>), TIter, TC0("empty"), TC0("error"), DivC, DivN}
           [] fam = "rec" -> {TNum(1), TC0("empty"), TC0("error"), RecCall}
           [] fam = "recb" -> {TNum(1), TC0("empty"), TC0("error")}
           [] OTHER -> {})
@@ -43,6 +48,7 @@ Bin(fam) ==
     [] fam = "order" -> {"|", ",", "//", "or", "and", "+", "-", "<", "=="}
     [] fam = "paths" -> {"|", ",", "//"}
     [] fam = "streams" -> {"|", ",", "//"}
+    [] fam = "lazyp" -> {"|", ",", "//"}
     [] fam \in {"rec", "recb"} -> {"|", ",", "+", "//"}
     [] OTHER -> {}
 
@@ -58,11 +64,13 @@ Unary(fam, sc, t) ==
                            TC2("limit", TNeg(TNum(1)), t),
                            TC2("skip", TNum(0), t), TC2("skip", TNum(1), t), TC2("skip", TNum(2), t),
                            TC2("nth", TNum(0), t), TC2("nth", TNum(1), t), TC1("add", t),
-                           TC2("any", t, TId), TC2("all", t, TId), TC1("recurse", t)}
+                           TC2("any", t, TId), TC2("all", t, TId), TC1("any", t), TC1("all", t), TC1("recurse", t)}
+    [] fam = "lazyp" -> {TTryE(t), TC1("first", t), TC2("limit", TNum(1), t), TC2("limit", TNum(2), t), TC2("skip", TNum(1), t),
+                         TC1("select", t)}
     [] fam \in {"rec", "recb"} -> {TArr(t), TTryE(t), TTry(t, TStr(Ascii("c"))), TC1("first", t)}
     [] OTHER -> {}
 
-HasBinders(fam) == fam \in {"binders", "paths", "streams", "rec", "recb"}
+HasBinders(fam) == fam \in {"binders", "paths", "streams", "rec", "recb", "lazyp"}
 HasDefs(fam) == fam \in {"binders", "paths"}
 
 G(fam, n, sc) ==
@@ -84,7 +92,7 @@ G(fam, n, sc) ==
           THEN UNION {{TLabel(l, a) : a \in G(fam, n - 1, [sc EXCEPT !.ls = @ \cup {l}])} : l \in LblNames}
           ELSE {})
     \* if c then t else e end
-    \cup (IF fam \in {"order", "paths"} /\ n >= 4
+    \cup (IF fam \in {"order", "paths", "lazyp"} /\ n >= 4
           THEN UNION {{TIf(c, a, b) : c \in G(fam, s[1], sc), a \in G(fam, s[2], sc), b \in G(fam, s[3], sc)} : s \in Split3(n - 1)}
           ELSE {})
     \* reduce / foreach xs as $x (init; upd)
